@@ -85,6 +85,13 @@ struct Dir {
     sent: usize,
     sent_end: Vec<usize>,
     received: usize,
+    /// device position at the end of the last poll of this direction
+    last_cursor: usize,
+    /// units of this direction left the device *between* polls: the receiving link object
+    /// consumes input outside try_get_packet (e.g. its send path parks received bytes while
+    /// the transmitter is busy). Device-level observations are then no oracle input any more
+    /// (as for receivers that read ahead, see link_hostile::reads_ahead).
+    taken_outside_polls: bool,
 }
 
 fn frames_of_len(len: usize) -> usize {
@@ -262,14 +269,20 @@ pub fn run(sim: &Sim, prop: &str, tier: Tier) -> Outcome {
     let read_ahead = crate::link_hostile::reads_ahead(kind);
     let sig = |what: &str| format!("{}:{}", kind.name(), what);
     let mut dirs = [
-        Dir { unjudged: false, name: "e0->e1", wire: w01.clone(), planned, sent: 0, sent_end: Vec::new(), received: 0 },
-        Dir { unjudged: reverse_fails, name: "e1->e0", wire: w10.clone(), planned: planned_back, sent: 0, sent_end: Vec::new(), received: 0 },
+        Dir { unjudged: false, name: "e0->e1", wire: w01.clone(), planned, sent: 0, sent_end: Vec::new(), received: 0, last_cursor: 0, taken_outside_polls: false },
+        Dir { unjudged: reverse_fails, name: "e1->e0", wire: w10.clone(), planned: planned_back, sent: 0, sent_end: Vec::new(), received: 0, last_cursor: 0, taken_outside_polls: false },
     ];
 
     // One poll of the receiving endpoint of direction `d` plus all per-poll clauses.
     let do_poll = |rx: &mut AnyLink, d: &mut Dir, live: bool| -> Option<Outcome> {
         let who = if d.name == "e0->e1" { "e1" } else { "e0" };
         let out = poll(sim, who, rx, &d.wire);
+        if out.cursor_before != d.last_cursor && !d.taken_outside_polls {
+            d.taken_outside_polls = true;
+            sim.count("input_taken_outside_polls");
+        }
+        d.last_cursor = out.cursor_after;
+        let read_ahead = read_ahead || d.taken_outside_polls;
         match &out.res {
             Err(Crash::Blocked) => {
                 return Some(fail(
